@@ -43,6 +43,12 @@ def run(ctx):
             mismatch = rng.random() < 0.15
             j = (i + 1) % len(seeds) if mismatch else i
             extra = [(b'k%d' % t, rbytes(rng, rng.randrange(0, 5))) for t in range(rng.randrange(0, 3))]
+            # attribute names of unusual shape: with U+FFFD / other non-ASCII characters, of the lengths where the CBOR head changes
+            # width (23 | 24, 255 | 256) and whose length byte is >= 0x80 (128 ... 255)
+            if len(chains) % 3 == 1:
+                extra.append((rng.choice(['note\ufffd', '\ufffd', 'gr\u00fc\u00dfe', 'k\u212a', '\u65e5\u672c']).encode('utf-8'), b'v'))
+            if len(chains) % 3 == 2:
+                extra.append((b'n' * rng.choice([23, 24, 127, 128, 130, 200, 255, 256, 300]), b'v'))
             attrs = [(KEYNAME, unhex(pks[j]))] + extra
             rng.shuffle(attrs)
             steps.append(dict(seed=seeds[i], pk=pks[j], attrs=attrs, fail=rng.random() < 0.05))
